@@ -23,7 +23,7 @@ pub trait FactoryModule:
     + executable::ExecutableModule
 {
     // Needs to be payable because it issues ESDT token through the TokenManager
-    #[payable("*")]
+    #[payable("EGLD")]
     #[endpoint(deployInterchainToken)]
     fn deploy_interchain_token(
         &self,
